@@ -449,6 +449,9 @@ fn run_scenario(run: &Run, scenario: usize, h: &mut Hist, sc: &Scratch, n_trunk:
 					let mut r = st.roots();
 					r.bitmap_root = bitmap_root_from_idx(&vidx);
 					b.header.output_root = r.output_root_for(b.header.version);
+					// the block hash covers the proof only: without real PoW every variant needs
+					// its own pseudo-proof, otherwise it would share the honest block's hash
+					vcommon::world::skip_pow_proof(&mut b.header, &mut prng);
 					let res = node.chain.as_ref().unwrap().process_block(b.clone(), cx.opts);
 					run.count(&format!("tampered_refused.{}", vn), 1);
 					run.eval(&format!("tampered;{};round{}", vn, round), true);
